@@ -249,10 +249,44 @@ def _resolver(vcf_path, run):
                           phased=phased, **MODE_KW[mode])
 
 
-def _observe(ar, contig, first):
+_ALT_READS = {}
+
+
+def _alt_read(contig):
+    """a read over the whole probed stretch of `contig` that spells the first ALT allele at every single-nucleotide record
+    (so that it hits several informative sites that belong to different samples)"""
+    if contig not in G.CONTIGS:
+        return None
+    if contig not in _ALT_READS:
+        import pysam
+        hdr = pysam.AlignmentHeader.from_references(list(G.CONTIGS), [G.CONTIG_LENGTH] * len(G.CONTIGS))
+        n = G.MAX_POS0 + 2
+        seq = ['A'] * n
+        for c, pos1, ref, alt, gts, cls in G.records():
+            a = alt.split(',')[0]
+            if c == contig and len(ref) == 1 and len(a) == 1 and a in 'ACGT' and pos1 - 1 < n:
+                seq[pos1 - 1] = a
+        r = pysam.AlignedSegment(hdr)
+        r.query_name = 'altread'
+        r.query_sequence = ''.join(seq)
+        r.flag = 0
+        r.reference_id = hdr.get_tid(contig)
+        r.reference_start = 0
+        r.cigarstring = f'{n}M'
+        r.mapping_quality = 60
+        _ALT_READS[contig] = r
+    return _ALT_READS[contig]
+
+
+def _observe(ar, contig, first, with_reads=False):
     h0 = None
     if first == 'h':
         h0 = tuple(p for p in G.PROBE_POSITIONS if ar.has_location(contig, p))
+    if with_reads:
+        # the read-level entry point the tagger uses; asking it must not change what the lookups answer afterwards
+        rd = _alt_read(contig)
+        if rd is not None:
+            ar.getAllele([rd])
     lk = []
     for p in G.PROBE_POSITIONS:
         for b in G.PROBE_BASES:
@@ -269,7 +303,7 @@ def _execute(vcf_path, run):
     try:
         ar = _resolver(vcf_path, run)
         for contig in run[5]:
-            obs.append(_observe(ar, contig, run[4]))
+            obs.append(_observe(ar, contig, run[4], with_reads=(run[4] == 'g')))
     except Exception as e:       # the code under test failed: a violation, reported by the caller
         return obs, e
     return obs, None
